@@ -356,3 +356,11 @@ End P.
     of range, and the recursion ends within depth 6 * length + 8 *)
 Theorem parse_total is_alnum is_num is_ws s : parse is_alnum is_num is_ws s <> Panic /\ parse is_alnum is_num is_ws s <> Fuel.
 Proof. unfold parse. apply p_expr_total. Qed.
+
+Theorem query_parse_total is_alnum is_num is_ws s :
+  query_parse is_alnum is_num is_ws s <> Panic /\ query_parse is_alnum is_num is_ws s <> Fuel.
+Proof.
+  unfold query_parse. destruct s as [|c s]; [split; discriminate|].
+  destruct (if starts (trim_with is_ws (c :: s)) w_not then (true, skipn 4 (trim_with is_ws (c :: s))) else (false, trim_with is_ws (c :: s))) as [neg q].
+  destruct (parse_total is_alnum is_num is_ws q) as [A B]. destruct (parse is_alnum is_num is_ws q); split; try discriminate; congruence.
+Qed.
